@@ -115,6 +115,29 @@ Theorem C18_reply_error : forall (A R E : Type) (f : A -> R + E) (complete : lis
 Proof. exact reply_error_lemma. Qed.
 Print Assumptions C18_reply_error.
 
+(* Decoder depth over the life of a connection (MaxDepth).  A message leaves the
+   decoder's depth where it found it, for both codecs as the code is now ... *)
+Theorem C18_depth_frame : forall (k : rpckind) (maxd d : nat) (ns : list nat) (d' : nat),
+  dec_frame (mark_leaks_of k) k maxd d ns = DOk d' -> d' = d.
+Proof. exact depth_frame_lemma. Qed.
+Print Assumptions C18_depth_frame.
+
+(* ... so ANY number of messages on one connection whose values nest less than MaxDepth
+   deep never fails with "maximum decoding depth exceeded" *)
+Theorem C18_depth : forall (k : rpckind) (maxd : nat) (frames : list (list nat)) (i : nat),
+  Forall (Forall (fun n => n < maxd)) frames ->
+  dec_conn (mark_leaks_of k) k maxd 0 frames i = None.
+Proof. exact depth_conn_lemma. Qed.
+Print Assumptions C18_depth.
+
+(* the defect class "the hand-read array start counts as a nesting level that is never
+   closed" (seeded change C18-3-1): messages of scalars only, and the connection still
+   dies at message MaxDepth - 1, for every MaxDepth *)
+Theorem C18_depth_leak_refuted : forall maxd : nat, 0 < maxd ->
+  dec_conn true SpecRpc maxd 0 (repeat [0; 0; 0; 0] maxd) 0 = Some (maxd - 1).
+Proof. exact depth_leak_refuted_lemma. Qed.
+Print Assumptions C18_depth_leak_refuted.
+
 (* Close is idempotent: same state, same return value; the connection is closed once *)
 Theorem C18_close : forall c : codec,
   fst (close (fst (close c))) = fst (close c) /\
@@ -198,3 +221,12 @@ Proof.
     apply perm_swap.
   - vm_compute. repeat split; reflexivity.
 Qed.
+
+(* 2000 MsgpackSpecRpc messages with a struct-with-slice body (nesting 3) under MaxDepth 8:
+   no depth error; one level more is refused at the first message; with the leak the
+   fifth message dies *)
+Example C18_depth_nonvacuous :
+  dec_conn (mark_leaks_of SpecRpc) SpecRpc 8 0 (repeat [0; 0; 0; 3] 2000) 0 = None /\
+  dec_conn (mark_leaks_of SpecRpc) SpecRpc 3 0 (repeat [0; 0; 0; 3] 5) 0 = Some 0 /\
+  dec_conn true SpecRpc 8 0 (repeat [0; 0; 0; 3] 2000) 0 = Some 4.
+Proof. vm_compute. repeat split; reflexivity. Qed.
